@@ -694,6 +694,9 @@ def composed_predicates(chk):
 
 
 def obligations(chk):          # noqa: F811
+    # "after NewType and alias resolution": the resolution itself (inspection.unwrap, any interleaving of the wrapper kinds)
+    from props import unwrap_contract
+    unwrap_contract.obligations(chk)
     composed_predicates(chk)
     value_predicate_obligations(chk)
     type_hints_obligations(chk)
